@@ -145,10 +145,31 @@ def native_replay(hb, ll, entry, inputs, outdir, tag):
     return ('reproduced' if failed else 'not-reproduced'), failed, (so + se)[-800:]
 
 
+def twin_replay(hb, cfile, entry, inputs, outdir, tag):
+    """scaled-width harnesses cannot run natively (the real code has 32/64-bit words): execute the generated C itself,
+    compiled by clang with _BitInt for the scaled widths, on the counterexample inputs."""
+    os.makedirs(outdir, exist_ok=True)
+    drv = os.path.join(outdir, 'tdrv_%s.c' % tag)
+    open(drv, 'w').write('void %s(void);\nextern int ir2c_assert_failed;\nint main(void){ %s(); return ir2c_assert_failed; }\n' % (entry, entry))
+    exe = os.path.join(outdir, 'twin_%s' % tag)
+    cmd = ['clang-14', '-O0', '-w', '-std=gnu2x', '-I', P.RT, '-I', os.path.dirname(cfile), cfile, drv, '-lm', '-o', exe]
+    rc, so, se, dt = P.run(cmd, timeout=600)
+    if rc != 0:
+        return 'unavailable', [], 'twin build failed: ' + se[-1200:]
+    inp = os.path.join(outdir, 'tinputs_%s.txt' % tag)
+    open(inp, 'w').write('\n'.join(str(v) for v in inputs) + '\n')
+    env = dict(os.environ, IR2C_INPUTS=inp, IR2C_VERBOSE='1')
+    rc, so, se, dt = P.run([exe], timeout=120, env=env)
+    failed = [f for f in re.findall(r'^ASSERT FAILED: (.*)$', so + se, re.M) if not f.startswith('WITNESS:')]
+    if rc not in (0, 1):
+        return 'crash', failed, 'twin run ended with status %d: %s' % (rc, (so + se)[-500:])
+    return ('reproduced' if failed else 'not-reproduced'), failed, 'replayed on the clang build of the scaled translation (no native build exists at scaled width): ' + (so + se)[-400:]
+
+
 def input_values(trace):
     vals = []
     for st in trace or []:
-        if st.get('stepType') == 'assignment' and not st.get('hidden') and (st.get('lhs') or '').startswith('ir2c_in_u'):
+        if st.get('stepType') == 'assignment' and not st.get('hidden') and (st.get('lhs') or '').startswith('ir2c_in_'):
             v = st.get('value', {})
             b = v.get('binary')
             vals.append(int(b, 2) if b else int(re.sub(r'[^0-9-]', '', v.get('data', '0')) or 0))
@@ -331,7 +352,10 @@ def decide(prop, tier, seed, work, evid_path, a, t_start):
             tag = re.sub(r'[^A-Za-z0-9]+', '_', '%s_%s_%s' % (hb.name, e['name'], p['name']))[-80:]
             os.makedirs(rdir, exist_ok=True)
             is_model_check = not ('assertion' in (p['name'] or ''))
-            status, failed, detail = native_replay(hb, ll_use, e['name'], inputs, os.path.join(work, 'replay'), tag)
+            if hb.spec.get('scale'):
+                status, failed, detail = twin_replay(hb, cf_use, e['name'], inputs, os.path.join(work, 'replay'), tag)
+            else:
+                status, failed, detail = native_replay(hb, ll_use, e['name'], inputs, os.path.join(work, 'replay'), tag)
             replays += 1
             rp = os.path.join(rdir, tag + '.json')
             json.dump({'property': prop, 'harness': hb.name, 'entry': e['name'], 'assertion': desc, 'cbmc_property': p['name'],
